@@ -189,6 +189,10 @@ def run(res, tier, seed):
         res.add_lemma(a, expect, what)
         if a["result"] != expect:
             raise vlib.ToolError("lemma %s!%s: %s (expected %s)" % (m, inv, a["result"], expect))
+    t = vlib.run_tlapm("NearestProof")
+    res.add_lemma(t, "Proved", "TLAPS: floor(centre) is an index inside the source for ALL natural sizes and every rational grid (crop inside)")
+    if t["result"] != "Proved":
+        raise vlib.ToolError("TLAPS proof NearestProof: %s" % t["result"])
     # (A) coefficient windows without pixel data
     ccases = []
     for (i, a, wq, Q, o) in coeffs.geometries(tier, rng):
